@@ -1427,10 +1427,11 @@ func sameSet(a, b heldSet) bool {
 	return true
 }
 
-func gen(repo string) (map[string]string, error) {
+// analyseAll parses and walks the given package directories of the source tree.
+func analyseAll(repo string, dirs []string) (*analysis, error) {
 	a := &analysis{repo: repo, funcs: map[string]string{}, roots: map[string]bool{}, exported: map[string]bool{},
 		summaries: map[string][][2]string{}}
-	for _, dir := range pkgDirs {
+	for _, dir := range dirs {
 		p, err := load(repo, dir)
 		if err != nil {
 			return nil, err
@@ -1450,7 +1451,11 @@ func gen(repo string) (map[string]string, error) {
 			a.roots[f] = true
 		}
 	}
-	// entry sets: greatest fixpoint
+	return a, nil
+}
+
+// entrySets: greatest fixpoint of entry(f) = meet over call sites (held at site + entry(caller)), empty for roots.
+func entrySets(a *analysis) map[string]heldSet {
 	entry := map[string]heldSet{} // missing = TOP
 	for f := range a.roots {
 		entry[f] = heldSet{}
@@ -1498,6 +1503,15 @@ func gen(repo string) (map[string]string, error) {
 			entry[f] = heldSet{} // unreachable cycle: assume nothing
 		}
 	}
+	return entry
+}
+
+func gen(repo string) (map[string]string, error) {
+	a, err := analyseAll(repo, pkgDirs)
+	if err != nil {
+		return nil, err
+	}
+	entry := entrySets(a)
 	// init phase: least fixpoint from the designated roots
 	initFns := map[string]bool{}
 	for _, r := range initRoots {
